@@ -55,7 +55,8 @@ monitors (Lean, on the REAL turn): link.t1, link.query, link.bundle, link.plan, 
         monitors of those packages on the real records), c17.yield (C17's decision table on the real boundary counters),
         link.t2stats, and C18's gel.mon monitors c18.canon / bounded / handoff_topk / obs_spec / tick_spec on the real
         state.graph before/after observe and tick;  (Python) records.turn_agent / streams / rollup / apply_version,
-        line.budget, cache.hit_justified / size / invalidation, gel.order / handoff / tick_args / maintenance, quality.query,
+        line.budget, cache.hit_justified / size / invalidation / transparent (a history with a turn-level cache hit, run again with
+        t4.cache off: same T2 statistics, line, store, version, GEL store, memory index at every turn), gel.order / handoff / tick_args / maintenance, quality.query,
         hybrid.handoff / called, records.hybrid, boot.once, memory.append_only / entry_shape / visible, agents.snapshot_files; (Lean, step 8, on the real lines) log.normalized
         (every line is a fixpoint of the identity normalisation), log.rollup (the turn record restates the stage records of the
         same turn), log.order (files in stage order, scheduler event right before the early turn record, gel lines between t2
@@ -990,6 +991,23 @@ def _sched_logs(run) -> List[dict]:
     return out
 
 
+def _orch_hit_turns(real: dict) -> List[int]:
+    """turns whose T2 result was served by the orchestrator's turn-level cache (the t2 record says so)"""
+    return [i for i, t in enumerate(real.get("turns", []))
+            if not t["raised"] and t["logs"].get("t2") and bool(t["logs"]["t2"][0].get("cache_hit"))]
+
+
+_T2_RESULT_KEYS = ("k_returned", "k_used", "sim_stats", "score_stats", "tier_sequence")
+
+
+def _transp_view(t: dict) -> dict:
+    """what a turn shows of its T2 result and what it leaves behind — nothing that mentions a cache"""
+    l2 = (t["logs"].get("t2") or [{}])[0]
+    return {"line": t["line"], "state": t["state"], "gel": t["gel"], "memAfter": t.get("memAfter"), "memN": t["memN"],
+            "t2": {k: l2.get(k) for k in _T2_RESULT_KEYS if k in l2},
+            "yield": [[r_.get("stage_end"), r_.get("reason")] for r_ in (t.get("schedLogs") or [])]}
+
+
 def run_real_plain(scratch, case: dict) -> List[dict]:
     """The same history once more on a freshly built world, without recorders: what C01 says must be identical."""
     w, _ = build_world(scratch, case)
@@ -1301,6 +1319,16 @@ class _Compose(Component):
                 r["again"] = run_real_plain(base2, case)
             except Exception as e:
                 r["again"] = {"error": f"{type(e).__name__}: {str(e)[:160]}"}
+            # whole-history cache transparency on the real engine (Lean: C01_compose_orch_cache_transparent_partial): when a
+            # turn was served by the orchestrator's turn-level cache, the same history once more with `t4.cache` OFF
+            try:
+                if _orch_hit_turns(r):
+                    off = copy.deepcopy(case)
+                    off["cfg"].setdefault("t4", {}).setdefault("cache", {})["enabled"] = False
+                    base3 = self._scratch.tmpdir("compose3") if self._scratch is not None else Path(tempfile.mkdtemp(prefix="compose3_"))
+                    r["cache_off"] = run_real_plain(base3, off)
+            except Exception as e:
+                r["cache_off"] = {"error": f"{type(e).__name__}: {str(e)[:160]}"}
             self._real[id(case)] = (case, r)   # keeps the case alive: ids are not reused while it is cached
         return r
 
@@ -1531,6 +1559,23 @@ class _Compose(Component):
             same = _canon(first) == _canon(again)
             res.append(("replay.real_deterministic", same,
                         "replaying the history on a fresh world differs: " + ("" if same else first_diff(_canon(first), _canon(again)))))
+        # C05 on the whole turn (Lean: C01_compose_orch_cache_transparent_partial): with the turn-level cache OFF every turn of
+        # the history — in particular each one that was served by the cache — sees the same T2 result (a fresh
+        # `t2_semantic` on the state of that moment) and leaves the same line, store, version, GEL store and memory index
+        off = real.get("cache_off")
+        if isinstance(off, list) and len(off) == len(real["turns"]):
+            for i, (rt, ot) in enumerate(zip(real["turns"], off)):
+                if rt["raised"] or ot["raised"]:
+                    res.append(("cache.transparent", bool(rt["raised"]) == bool(ot["raised"]),
+                                f"turn {i}: raised={rt['raised']} with the turn-level cache on, {ot['raised']} with it off"))
+                    break
+                a_, b_ = _transp_view(rt), _transp_view(ot)
+                same = _canon(a_) == _canon(b_)
+                res.append(("cache.transparent", same,
+                            f"turn {i} ({'served by the cache' if i in _orch_hit_turns(real) else 'computed'}): cache on vs off: "
+                            + ("" if same else first_diff(_canon(a_), _canon(b_)))))
+                if not same:
+                    break
         gel_on = bool((real["cfg_plain"].get("graph") or {}).get("enabled", False))
         for i, (t, rt) in enumerate(zip(case["turns"], real["turns"])):
             if rt["raised"]:
